@@ -6,6 +6,7 @@ stdin bytes, resulting files, stdout, status) of every entry point must equal th
 There is no model: the oracle is equality."""
 import json
 import os
+import re
 
 import common
 import ptydrv
@@ -221,6 +222,11 @@ def gen_cases(tier, seed):
             if any(not rd.get("space", True) and rd["op"] in ("<", "<<<") for rd in cc["redirs"]):
                 continue
             line = c04.render(cc)
+            if re.search(r"(^|[|;&]\s*)jobs\b", line):
+                # `jobs` prints the job table, which the shell keeps only when it has a terminal (core.rs registers a
+                # job `if options.isatty`): as a later stage of a pipeline it lists that pipeline's first stage in the
+                # interactive entry and nothing in the other four - by construction, like `$$`
+                continue
             setup["files"] = {nm: "OLD\n" for nm, st in cc["init"].items() if st == "old"}
             setup["dirs"] = ["dir1"]
             setup["vp"] = {"out.P": cc["feed"].decode("latin1")}
